@@ -665,21 +665,7 @@ func sqlSites(w *World) []sqlSite {
 // ---------------------------------------------------------------- C03.c STORAGE-REFUSAL, C06.a/b, C05.e
 
 func ruleStorageRefusal(w *World, r *Run, rule string) {
-	// SQL: Close == Rollback on the handle's transaction
-	if sums, _, ok := explore(w, r, rule, fnSQLClose, 4, 1); ok {
-		fn := w.fn(fnSQLClose)
-		tx := mk("field", "tx", 0, nil, recvParam(fn))
-		for _, s := range sums {
-			rb := calls(s, "(*database/sql.Tx).Rollback")
-			good := len(rb) == 1 && rb[0].Recv == tx && len(calls(s, "(*database/sql.Tx).Commit")) == 0
-			for _, ev := range s.Events {
-				if isE, _ := isSQLExec(ev.Callee); ev.Kind == "call" && isE {
-					good = false
-				}
-			}
-			r.Check(good, rule, fnSQLClose+" | Close is Rollback on the handle's transaction", w.pos(s.RetPos), "writer.Close must roll back (and only roll back) the transaction begun by WriteOps; a Close that commits or executes makes refusals write")
-		}
-	}
+	ruleCloseIsRollback(w, r, rule)
 	// SQL: Set can only succeed through Commit
 	ruleCommitBeforeAck(w, r, rule)
 	// in-memory: update only on the nil-returning paths of the compare-and-set
@@ -716,6 +702,24 @@ func ruleStorageRefusal(w *World, r *Run, rule string) {
 		}
 		if clean {
 			r.Pass(rule, name+" | performs no mutation", w.pos(w.fn(name).Pos()), "")
+		}
+	}
+}
+
+// ruleCloseIsRollback: SQL Close == Rollback (and only Rollback) on the handle's transaction, on every path.
+func ruleCloseIsRollback(w *World, r *Run, rule string) {
+	if sums, _, ok := explore(w, r, rule, fnSQLClose, 4, 1); ok {
+		fn := w.fn(fnSQLClose)
+		tx := mk("field", "tx", 0, nil, recvParam(fn))
+		for _, s := range sums {
+			rb := calls(s, "(*database/sql.Tx).Rollback")
+			good := len(rb) == 1 && rb[0].Recv == tx && len(calls(s, "(*database/sql.Tx).Commit")) == 0
+			for _, ev := range s.Events {
+				if isE, _ := isSQLExec(ev.Callee); ev.Kind == "call" && isE {
+					good = false
+				}
+			}
+			r.Check(good, rule, fnSQLClose+" | Close is Rollback on the handle's transaction, on every path", w.pos(s.RetPos), "writer.Close must roll back (and only roll back) the transaction begun by WriteOps on every path: a Close that commits makes refusals write, a Close that sometimes does nothing leaves the transaction (and the single connection) pinned")
 		}
 	}
 }
